@@ -60,8 +60,8 @@ def make_oracle(sc, meta, stats):
         if not m:
             # rejected: must not be a conforming message (completeness clause)
             stats['rejected'] = stats.get('rejected', 0) + 1
-            if probs:
-                return (True, None)
+            if probs or 'count-mismatch' in classes:
+                return (True, None)             # (a count that announces more elements than follow: the property lists no clause for it, either outcome is fine)
             return (False, 'value-text-not-validated' if 'value-text-not-validated' in classes else None)
         stats['accepted'] = stats.get('accepted', 0) + 1
         klass = None
